@@ -217,8 +217,9 @@ func raceMain(args []string) error {
 								emit(trace.Ev{"ev": "Fatal", "pair": pair, "msg": fmt.Sprint(x)})
 							}
 						}()
+						lr := rand.New(rand.NewSource(*seed*31 + int64(side))) // a generator of this goroutine's own
 						for i := 0; i < *iters; i++ {
-							m.f(s, i*2+side+(i*7+side*3)%3)
+							m.f(s, lr.Intn(1000))
 							if i%8 == 0 {
 								runtime.Gosched()
 							}
